@@ -512,6 +512,11 @@ bool[<=600] bits
 int32[<=20] tail
 @sealed
 ''',
+    # heap memory owned two levels below a union alternative (no alternative has a variable-length array of its own)
+    'cov/Blob.1.0.dsdl': 'uint8[<=64] data\n@sealed\n',
+    'cov/Record.1.0.dsdl': 'uint16 id\ncov.Blob.1.0 payload\n@sealed\n',
+    'cov/URec.1.0.dsdl': '@union\nuint8 a\ncov.Record.1.0 rec\ncov.Record.1.0[2] pair\nfloat32 f\n@sealed\n',
+    'cov/URecHolder.1.0.dsdl': 'cov.URec.1.0 u\ncov.URec.1.0[<=2] us\nuint8 t\n@sealed\n',
     'cov/Inner.1.0.dsdl': 'uint5 a\nint11 b\nbool[<=3] c\n@sealed\n',
     'cov/Outer.1.0.dsdl': '''Inner.1.0 one
 void2
